@@ -342,15 +342,15 @@ def gen_act(rng, widen=False, exact=False):
 def gen_cases(ctx):
     rng = ctx.rng
     cases = []
-    for _ in range(ctx.budget(900, 12000)):
+    for _ in range(ctx.budget(900, 9000)):
         cases.append(gen_learn(rng, ctx.widen))
-    for _ in range(ctx.budget(12, 96)):
+    for _ in range(ctx.budget(12, 120)):
         cases.append(gen_learn(rng, ctx.widen, kc04a=True))
-    for _ in range(ctx.budget(4, 24)):
+    for _ in range(ctx.budget(4, 40)):
         cases.append(gen_learn(rng, ctx.widen, kc04b=True))
-    for _ in range(ctx.budget(2000, 30000)):
+    for _ in range(ctx.budget(2000, 20000)):
         cases.append(gen_act(rng, ctx.widen, exact=True))
-    for _ in range(ctx.budget(2000, 30000)):
+    for _ in range(ctx.budget(2000, 20000)):
         cases.append(gen_act(rng, ctx.widen, exact=False))
     return cases
 
